@@ -229,8 +229,8 @@ class DropScenario(object):
 
 
 def run_sdthread(case, res):
-    for wait in (True, False):
-        for state in ("idle", "busy"):
+    for wait, state in [(w, st) for w in (True, False) for st in ("idle", "busy", "delegate-shutdown-raises")]:
+        if True:
             begin("vt")
             ctx = Ctx()
             try:
@@ -238,11 +238,27 @@ def run_sdthread(case, res):
                 if state == "busy":
                     f = b.top.submit(Job("a", 1), 0)
                     instr.advance(0.05)
-                a = ctx.actor("S", b.top.shutdown, wait).go()
+                if state == "delegate-shutdown-raises":
+                    # an old-style delegate: shutdown(wait=True) without **kwargs, the caller passes cancel_futures
+                    real = b.base.shutdown
+                    b.base.shutdown = lambda wait=True: real(wait)
+
+                    def sd():
+                        try:
+                            b.top.shutdown(wait, cancel_futures=True)
+                        except TypeError:
+                            pass
+                    a = ctx.actor("S", sd).go()
+                else:
+                    a = ctx.actor("S", b.top.shutdown, wait).go()
                 if drive([a], use_time=False) != "ok":
                     res.count("foreign.shutdown_hang")
                     continue
                 instr.advance(0.05)
+                if state == "delegate-shutdown-raises":
+                    # shutdown() ended with the delegate's TypeError: the layer is shut down all the same; a worker that
+                    # only notices at its next timed wake-up (30 s at most) is accepted here
+                    instr.advance(35.0)
                 res.execs += 1
                 check_common(res)
                 alive = [t.vf_role for t in threads if t.is_alive() and not t.vf_finished]
